@@ -126,6 +126,9 @@ func (a *c01) opsReaching(fn *types.Func, bind string, meth string, depth int, o
 		// delegation to a Polygonal set-operation method
 		if sig.Recv() != nil {
 			if _, isOp := c01ops[f.Name()]; isOp {
+				if isNilTest(info, fd.Body, call) && isNamed(sig.Recv().Type(), modPath, "Bounds") {
+					return true // a box-vs-box emptiness test, judged by the shortcut rules (C01.R4 / C14.R4), not a delegation
+				}
 				if f.Name() != meth {
 					*why = append(*why, "delegates to "+f.Name()+", not "+meth)
 					out["via-"+f.Name()] = true
@@ -641,4 +644,31 @@ func (a *c01) r5() {
 	if k == 0 {
 		c.Unk("C01.R5", "polyclip#compute", token.NoPos, "no trivial-case switch found")
 	}
+}
+
+// isNilTest: the call's value is used only as an operand of ==/!= nil.
+func isNilTest(info *types.Info, root ast.Node, call *ast.CallExpr) bool {
+	anc := enclosing(root, call)
+	for i := len(anc) - 1; i >= 0; i-- {
+		switch x := anc[i].(type) {
+		case *ast.ParenExpr:
+			continue
+		case *ast.BinaryExpr:
+			if x.Op != token.EQL && x.Op != token.NEQ {
+				return false
+			}
+			other := x.Y
+			if containsNode(x.Y, call) {
+				other = x.X
+			}
+			tv, ok := info.Types[other]
+			return ok && tv.IsNil()
+		default:
+			if anc[i] == ast.Node(call) {
+				continue
+			}
+			return false
+		}
+	}
+	return false
 }
